@@ -112,7 +112,7 @@ pub fn family(thorough: bool) -> Vec<(String, Vec<RuleSpec>)> {
     let triples: Vec<(Sel, Sel, Sel)> = if thorough {
         vec![(Sel::Empty, Sel::We, Sel::MoFr), (Sel::MoFr, Sel::Jun, Sel::We), (Sel::Jun, Sel::JunWe, Sel::Empty), (Sel::We, Sel::We, Sel::We), (Sel::Empty, Sel::Ph, Sel::We)]
     } else {
-        vec![(Sel::Empty, Sel::We, Sel::MoFr), (Sel::Jun, Sel::JunWe, Sel::Empty)]
+        vec![(Sel::Jun, Sel::JunWe, Sel::Empty)]
     };
     for op1 in OPS {
         for op2 in OPS {
